@@ -741,7 +741,7 @@ def c01(ctx):
                 "parser's tree and compared with the real run; non-trivial = every program (each composes at "
                 "least two constructs); distinct = distinct parameter tuples / script texts"
                 % ("6" if ctx.quick else "11", "" if ctx.quick else "; depth 3; pairs of payloads in one construct",
-                   300 if ctx.quick else 3000))
+                   300 if ctx.quick else 1500))
     out = ctx.run_model("MC_C01", "C01ParamsQuick" if ctx.quick else "C01ParamsThorough",
                         invariants=["EscapeWellFormed"],
                         props=FRAME_PROPS + ["BuildFresh", "FreshPerEntry", "ShadowFrame"], max_steps=4000)
@@ -750,8 +750,8 @@ def c01(ctx):
     scale_family(ctx, "c01", ALL_SCALE)
     corpus_validate(ctx, repo_test_scripts(), "c01tests")
     corpus_validate(ctx, doc_examples(), "c01docs")
-    corpus_validate(ctx, random_scripts(ctx.seed, 300 if ctx.quick else 3000,
-                                        max_stmts=30 if ctx.quick else 40), "c01random")
+    corpus_validate(ctx, random_scripts(ctx.seed, 300 if ctx.quick else 1500,
+                                        max_stmts=30 if ctx.quick else 35), "c01random")
 
 
 BOUNDARY_PROGRAMS = [
@@ -825,7 +825,7 @@ def boundary_programs(ctx, name):
 
 
 def c02(ctx):
-    nm = 3 if ctx.quick else 15
+    nm = 3 if ctx.quick else 10
     ctx.rule = ("12 alias shapes (same container twice, self-containing, inside its comparand, mutual, shared child, "
                 "two self-containing, deep self, object self / mixed / same, nested) x 24 hazard operations x 3 "
                 "operand orders; / and %% with zero divisor and zero dividend in plain and three op-assign forms; "
@@ -840,7 +840,7 @@ def c02(ctx):
     boundary_programs(ctx, "c02")
     ms = mutants(repo_test_scripts(), ctx.seed, nm)
     corpus_validate(ctx, ms, "c02mutants")
-    corpus_validate(ctx, random_scripts(ctx.seed + 17, 200 if ctx.quick else 3000, err_rate=0.06), "c02random")
+    corpus_validate(ctx, random_scripts(ctx.seed + 17, 200 if ctx.quick else 1500, err_rate=0.06), "c02random")
     ctx.notes.append("extreme 64-bit integers: see C06; non-ASCII text in literals: see C15")
 
 
